@@ -28,6 +28,16 @@ prop("C14", "K", "model_checking",
      technique="Kani/CBMC bounded model checking of add_local and its API wrappers against an index->type reference function",
      outside="byte emission of the locals vector in the code section (wasm_encoder::Function::new) and ValType::from(&DataType) for the declared type (covered by C01's K-conv harnesses); ComponentIterator/ModuleIterator::add_local glue beyond Functions::add_local; more than 2 initial groups / 3 additions")
 
+prop("C01", "K", "model_checking",
+     text="Bounded model checking of the wirm-owned type conversions on the parse->encode path: every value, reference, storage and block type of the listed feature profiles, and every function/array/struct type built from them (<= 2 params/fields), is re-emitted exactly as wasm-encoder's round-trip re-encoder emits it. This is the anchored mechanism (types.rs:143-707, encode_type); a wrong arm in these ~40-arm matches yields an invalid or different module only for the rare type that hits it, which is what the solver enumerates symbolically and the fixture files do not contain.",
+     technique="Kani/CBMC bounded model checking of DataType conversions and encode_type against wasm-encoder's RoundtripReencoder as oracle",
+     outside="the section decoders/encoders inline in parse_internal/encode_internal (imports, tables, memories, tags, elements, data, code-section operator re-encoding via wasm-encoder) and validation itself: they run through wasmparser readers, which CBMC cannot execute (DESIGN.md section 1); shared heap types, cont/nocont, RecGroup/Id indices")
+
+prop("C02", "K", "model_checking",
+     text="Bounded model checking of the wirm-owned content conversions of an unmodified round trip: all value/storage types and function/array types survive DataType (as C01), and every constant-expression instruction (globals, data offsets) is re-emitted as exactly the bytes it denotes for all immediates over their full width - all 2^32/2^64 integer constants, every f32/f64 bit pattern incl. NaN payloads, all v128 values, every heap type of ref.null - compared with an independent LEB128/IEEE writer.",
+     technique="Kani/CBMC bounded model checking of InitExpr::to_wasmencoder_type and the DataType conversions against an independent byte-level reference encoder",
+     outside="InitExpr::eval (decoder side, runs through wasmparser's operator reader), the name-section re-emission and the per-section emission loops of encode_internal; the struct arm of encode_type (CBMC out of memory, see harness/child_module.rs); multi-instruction (extended-const) expressions beyond ref.i31")
+
 
 def generated_harness_files(pid, tier, seed):
     return {}
